@@ -39,3 +39,53 @@ fn history_model_vs_real_three_pushes() {
         }
     }
 }
+
+use vp::model::args as ma;
+use vp::model::tokens as mt;
+
+const TL: usize = 40;
+
+fn model_tokens(line: &str) -> Vec<Vec<u8>> {
+    let mut buf = [0u8; TL];
+    buf[..line.len()].copy_from_slice(line.as_bytes());
+    let t = mt::tokenize::<TL>(&buf, line.len());
+    assert!(!t.open);
+    (0..t.n).map(|k| t.buf[t.start[k]..t.start[k] + t.len[k]].to_vec()).collect()
+}
+
+fn real_tokens(line: &str) -> Vec<Vec<u8>> {
+    let mut owned = line.to_string();
+    let tokens = Tokens::new(owned.as_mut_str());
+    tokens.iter().map(|s| s.as_bytes().to_vec()).collect()
+}
+
+/// the repository's own tokenizer test inputs, plus the quoting corner cases
+#[test]
+fn tokenizer_model_vs_real_on_repo_inputs() {
+    let lines = [
+        "", "   ", "abc", "  abc ", "  abc  def ", "  abc  def gh ", "abc  def gh", r#""abc""#, r#"  "abc" "#,
+        r#"  "  abc " "#, r#"  "  abc  "#, r#"  " abc"   "de fg " "  he  yw""#, r#"  "ab \"c\\d\" " "#, r#""abc\\""#,
+        r#""" a"#, r#"a """#, r#""" """#, r#""a"b"#, r#"a"b c"#, "set \u{4f50} \"\u{416} x\"",
+    ];
+    for l in lines {
+        assert_eq!(model_tokens(l), real_tokens(l), "line {:?}", l);
+    }
+}
+
+/// the repository's argument test line through the classifier model
+#[test]
+fn classifier_model_on_repo_input() {
+    let raw = "arg1\0--option1\0val1\0-f\0val2\0-vs\0--\0--o\0-x";
+    const L: usize = 48;
+    const L1: usize = 49;
+    let mut buf = [0u8; L];
+    buf[..raw.len()].copy_from_slice(raw.as_bytes());
+    let items: ma::Items<L1> = ma::classify::<L, L1>(&buf, raw.len());
+    let kinds: Vec<u8> = (0..items.n).map(|k| items.kind[k]).collect();
+    assert_eq!(
+        kinds,
+        vec![ma::VALUE, ma::LONG, ma::VALUE, ma::SHORT, ma::VALUE, ma::SHORT, ma::SHORT, ma::DD, ma::VALUE, ma::VALUE]
+    );
+    let list = embedded_cli::arguments::ArgList::new(Tokens::from_raw(raw, false));
+    assert_eq!(list.args().count(), items.n);
+}
